@@ -6,7 +6,8 @@
 //!        HS <updates>      SocketStats::update with extreme lengths:  k<written>/<len> | e/<len>   (decimal, up to usize::MAX)
 //!        HQ <qcap|u> <n>   QueuingMetricSink over a NopMetricSink: n emits, the counters, flush, drop
 //!        HW <cap> <ending-hex> <ops>    MultiLineWriter::with_ending over a sink that accepts everything (ops: E<hex> | F)
-//! observation (H):  per call ok | einv | eio | panic | notype, joined by ","  then |F:<ok|err|panic>|D:<ok|panic>
+//! observation (H):  per call ok | einv | eio | panic | notype, joined by ","  then |F:<ok|err|panic>|D:<ok|panic>|Z:<per call: the
+//!   size hint MetricFormatter::format computed (hook H3), "-" when the call did not get as far as formatting>
 //!   (F = client.flush(), D = dropping client and sink)
 use crate::util::{catch, unhex};
 use crate::wire::{do_call, parse_arg, parse_form, parse_ops, unhex0};
@@ -165,6 +166,15 @@ fn run_h(t: &[&str]) -> String {
     };
     let n: usize = t[5].parse().unwrap();
     let mut out = vec![];
+    // hook H3: the size hint MetricFormatter::format computed for the call (if it got that far)
+    let hints: std::sync::Arc<std::sync::Mutex<Vec<u64>>> = Default::default();
+    let h3 = hints.clone();
+    cadence::verif::install_value(std::sync::Arc::new(move |site, v| {
+        if site == "fmt.size_hint" {
+            h3.lock().unwrap().push(v);
+        }
+    }));
+    let mut zs: Vec<String> = vec![];
     for i in 0..n {
         let f = &t[6 + 5 * i..11 + 5 * i];
         let form = parse_form(f[0]);
@@ -172,7 +182,16 @@ fn run_h(t: &[&str]) -> String {
         let key = unhex0(f[3]);
         let ops = parse_ops(f[4]);
         handled.lock().unwrap().clear();
+        hints.lock().unwrap().clear();
         let r = catch(|| do_call(&client, form, f[1], &arg, &key, &ops));
+        zs.push({
+            let h = hints.lock().unwrap();
+            match h.len() {
+                0 => "-".to_string(),
+                1 => h[0].to_string(),
+                k => format!("{}x{}", h[0], k),
+            }
+        });
         out.push(match r {
             Ok(Some(s)) => {
                 if s == "unit" {
@@ -210,7 +229,8 @@ fn run_h(t: &[&str]) -> String {
             let _ = std::fs::remove_file(p);
         }
     }
-    format!("{}|F:{}|D:{}", out.join(","), fl, dr)
+    cadence::verif::uninstall_value();
+    format!("{}|F:{}|D:{}|Z:{}", out.join(","), fl, dr, zs.join(","))
 }
 
 struct Swallow;
